@@ -877,4 +877,59 @@ example : (run false [ruleSetEvent .original 2 [.ok], ruleSetEvent .original 1 [
     (run false [ruleSetEvent .head 2 [.ok], ruleSetEvent .head 1 [.ok], ruleSetEvent .head 2 [.noAnswer]]
       (⟨true, 0, 0⟩ : Proc Nat)).handled = 3 := by decide
 
+/-! ### The content of a RuleSet resource
+
+`updateStatus` deep-copies the resource (twice) on the informer's goroutine before it patches the status; the copy
+walks the `config` of every mechanism reference: an untyped object, any JSON value the API server delivers. -/
+
+/-- **The copy of a mechanism config returns on every value and yields that very value** (the JSON round trip of
+`MechanismConfig.DeepCopyInto`): nulls as map values and as list elements at any depth, empty and nested lists and
+maps, scalars of every kind. -/
+theorem c19_config_copy_is_total (v : Val) : copyVal true v = .ok v := copyVal_id v
+
+/-- **… exactly when a null element of a list is copied as null**: a copy that dereferences every element panics on
+`[null]`, so no such copy is acceptable on this goroutine. -/
+theorem c19_config_copy_returns_iff (nullElem : Bool) :
+    (∀ v : Val, (copyVal nullElem v).returns = true) ↔ nullElem = true := by
+  constructor
+  · intro h
+    cases nullElem
+    · have := h (.list [.null])
+      simp [copyVal, copyList, Val.isNull, Out.bind, Out.returns] at this
+    · rfl
+  · intro h v
+    subst h
+    simp [c19_config_copy_is_total, Out.returns]
+
+/-- the input of the seeded change: `audience: [foo, null]` below `assertions` -/
+example : copyVal false (.map [("assertions", .map [("audience", .list [.str "foo", .null])])]) = .panic ∧
+    copyVal true (.map [("assertions", .map [("audience", .list [.str "foo", .null])])]) =
+      .ok (.map [("assertions", .map [("audience", .list [.str "foo", .null])])]) ∧
+    copyVal false (.map [("a", .null), ("b", .list []), ("c", .list [.list [], .map []])]) =
+      .ok (.map [("a", .null), ("b", .list []), ("c", .list [.list [], .map []])]) := by
+  simp [copyVal, copyList, copyFields, Val.isNull, Out.bind]
+
+/-- **The informer goes on, whatever the resources hold.** For every history of RuleSet events — each with any
+mechanism configs (any JSON values), any `status.activeIn` and any answers to its status update — the informer's
+goroutine handles every one of them and is alive afterwards. -/
+theorem c19_informer_survives_ruleset_contents (evs : List (List Val × Nat × List PatchAnswer)) (p : Proc Nat)
+    (hp : p.alive = true) :
+    (run false (evs.map fun e => ruleSetEventWith .head true e.1 e.2.1 e.2.2) p).alive = true ∧
+      (run false (evs.map fun e => ruleSetEventWith .head true e.1 e.2.1 e.2.2) p).handled =
+        p.handled + evs.length := by
+  have := c19_watcher_goes_on false (evs.map fun e => ruleSetEventWith .head true e.1 e.2.1 e.2.2) p hp (by
+    intro h hh s
+    obtain ⟨e, _, rfl⟩ := List.mem_map.mp hh
+    simp only [ruleSetEventWith, Out.within_false, copyConfigs_ok, Out.bind]
+    exact updateStatus_returns e.2.1 e.2.2)
+  exact ⟨this.1, by simpa using this.2.1⟩
+
+/-- without it the first resource with a null list element ends the process -/
+example : (run false [ruleSetEventWith .head false [.map [("x", .list [.null])]] 2 [.ok]]
+    (⟨true, 0, 0⟩ : Proc Nat)).alive = false ∧
+    (run false [ruleSetEventWith .head true [.map [("x", .list [.null])]] 2 [.ok]]
+      (⟨true, 0, 0⟩ : Proc Nat)).alive = true := by
+  simp [run, deliver, ruleSetEventWith, copyConfigs, copyVal, copyList, copyFields, Val.isNull, Out.bind,
+    updateStatus, StatusGuards.head]
+
 end Heimdall.Props.C19
